@@ -115,12 +115,13 @@ def getPrimative (s : LS) : Step :=
   if s.inMatrix || !isUpper s.cur then .ok none
   else chopTok .group 1 s.pos s
 
-/-- `get_numeric` (lexer.rs:474-482) -/
-def getNumeric (s : LS) : Option (Token × LS) :=
-  if !isDigit s.cur then none
-  else
-    let (buf, s') := s.chopWhile isDigit
-    some (⟨.number, buf, s.pos, s'.pos⟩, s')
+/-- `get_numeric` (lexer.rs:474-488): a run of digits; one that does not fit a `usize` (64 bits here) is rejected,
+    so every number the parser and the interpreter later `parse::<usize>().unwrap()` fits -/
+def getNumeric (s : LS) : Step :=
+  if !isDigit s.cur then .ok none
+  else if ParseWord.digitsToNat (s.chopWhile isDigit).1 < 2 ^ 64 then
+    .ok (some (⟨.number, (s.chopWhile isDigit).1, s.pos, (s.chopWhile isDigit).2.pos⟩, (s.chopWhile isDigit).2))
+  else .err ⟨"NumberTooBig", s.pos, (s.chopWhile isDigit).2.pos⟩
 
 /-- `feature_match` (lexer.rs:751-819): the arm whose spellings contain the lower-cased buffer -/
 def featureMatch (buf : Text) : Option (String × String) :=
@@ -287,8 +288,11 @@ def getString (s : LS) : Step :=
         let s3 ← s2.advance
         let s4 := s3.trimWs
         match getNumeric s4 with
-        | some (num, s5) => pure (some (⟨.feature "Supr" "Tone", num.value, start, s5.pos⟩, s5))
-        | none => .err ⟨"ExpectedNumber", s4.pos, s4.pos + 1⟩
+        | .ok (some (num, s5)) => pure (some (⟨.feature "Supr" "Tone", num.value, start, s5.pos⟩, s5))
+        | .ok none => .err ⟨"ExpectedNumber", s4.pos, s4.pos + 1⟩
+        | .err e => .err e
+        | .panic p => .panic p
+        | .outOfFuel p => .outOfFuel p
       else .err ⟨"ExpectedCharColon", s2.pos, s2.pos + 1⟩
 
 /-- `get_comment` (lexer.rs:821-831) -/
@@ -314,7 +318,7 @@ def getNextToken (s0 : LS) : LRes (Token × LS) :=
   if s.src.isEmpty then .ok (⟨.eol, [], s.pos, s.pos + 1⟩, s)
   else
     match orElse (getComment s) fun _ => orElse (getBracket s) fun _ => orElse (getPrimative s) fun _ =>
-          orElse (.ok (getNumeric s)) fun _ => orElse (getFeature s) fun _ => orElse (getSpecialChar s) fun _ =>
+          orElse (getNumeric s) fun _ => orElse (getFeature s) fun _ => orElse (getSpecialChar s) fun _ =>
           orElse (getIpa s) fun _ => orElse (getDiacritic s) fun _ => getString s with
     | .ok (some r) => .ok r
     | .ok none => .err ⟨"UnknownCharacter", s.pos, s.pos + 1⟩
